@@ -314,7 +314,7 @@ func (k *Case) Violation(key, msg string, details map[string]interface{}) {
 		// keep at most 2 witnesses per distinct key/message
 		n := 0
 		for _, v := range c.violations {
-			if v.Key == key && v.Message == msg {
+			if v.Key == key && (key != "" || v.Message == msg) {
 				n++
 			}
 		}
